@@ -883,6 +883,18 @@ fn c12_states(rep: &mut Report) {
             }
         }
     }
+    // almost-unit inputs (a unit quaternion that drifted over a few hundred products): normalise still
+    // returns a UNIT quaternion, not "close enough, unchanged"
+    for d in [[1.0, 0.0, 0.0, 0.0], [0.0, 0.6, 0.0, 0.8], [1.0, -2.0, 3.0, -4.0], [1.0, 1.0, 1.0, 1.0], [0.3, 1e-3, 0.0, -0.5]] {
+        let n = (d[0] * d[0] + d[1] * d[1] + d[2] * d[2] + d[3] * d[3] as f64).sqrt();
+        for k in [1.0f64, 5.0, 20.0, 40.0, 49.0, 100.0, 1000.0] {
+            for sgn in [1.0, -1.0] {
+                let f = (1.0 + sgn * k * 1e-8) / n;
+                quats.push([d[0] * f, d[1] * f, d[2] * f, d[3] * f]);
+                rep.count("normalise_almost_unit_inputs", 1);
+            }
+        }
+    }
     {
         {
             for q in quats {
